@@ -736,6 +736,8 @@ CONTRACTS += [
         params={'self': ('rec', 'StringDataEncoding'), 'packet': PKT_INTS},
         returns=('pval', [('StrParameter', 'bytes')]),
         requires=['packet.raw_data.pos >= 0',
+                  # native side: buffers inside the packet (past the end the field is unspecified, see ref_string_parse)
+                  ("outcome(ref_string_parse(self, packet, packet.raw_data.pos, adj)) != 'PastEnd'", ['__native__']),
                   ('is_none(self.length_linear_adjuster) or (is_none(self.fixed_length) and not is_none(self.dynamic_length_reference))', ['__proof__'])],
         ensures=dict(
             # C07 (PROVED): the raw value is the whole buffer, RIGHT-padded with zero bits to whole bytes; the cursor
